@@ -173,6 +173,9 @@ def sel_agree(mask):
 
 
 def interest_c01(mask, fdk, mcode, case):
+    bad = eval_results_ok(case, ('guard',))
+    if bad:
+        return bad + ' (C01: a transition competes iff its guard holds)'
     if not premise_ok(case):
         return None                      # the premise "the next pending event" is broken: C05's business
     if mask & B.SELECTED:
@@ -185,6 +188,8 @@ def interest_c01(mask, fdk, mcode, case):
 
 
 def interest_c02(mask, fdk, mcode, case):
+    if 'config' in case.get('discontinuity', []):
+        return 'the active configuration changed although no execute_once ran since the previous operation (C02_run)'
     pub = case['post'].get('public_config')
     if pub is not None and case['out'][0] != 'err' and sorted(pub) != sorted(case['post']['config']):
         return 'Interpreter.configuration (the public view) is not the active configuration after execute_once returned (C02_step)'
@@ -260,6 +265,9 @@ def has_history_step(case):
 
 
 def interest_c08(mask, fdk, mcode, case):
+    bad = eval_results_ok(case, ('pre', 'inv', 'post'))
+    if bad:
+        return bad + ' (C08_points / C08_first_failure: the verdict of a contract is the value of its condition)'
     if mask & B.PB_SLOTS:
         return 'code executed / conditions evaluated are not exactly the documented points of the returned macro step (C08_points)'
     if mask & B.PB_FAIL:
@@ -275,6 +283,70 @@ def interest_c08(mask, fdk, mcode, case):
         return 'what a contract condition sees differs (event, __old__, after/idle base, sent) (C08_old)'
     if mask & B.OLD and not (mask & B.OUTCOME):
         return '__old__ store differs (C08_old)'
+    return None
+
+
+class _NS:
+    def __init__(self, d):
+        self.__dict__.update(d)
+
+
+def _pyval(v):
+    return {'i': lambda: v[1], 'b': lambda: v[1], 's': lambda: v[1], 'n': lambda: None}[v[0]]()
+
+
+def eval_results_ok(case, kinds):
+    """Independent re-evaluation of guards / contract conditions: the harness evaluates the condition TEXT itself with Python,
+    in an environment rebuilt from what the evaluator exposed at that call (context variables, time, the configuration seen by
+    active(), the bases of after()/idle(), sent(), received(), the event, __old__), and compares with the result the
+    evaluator produced.  Conditions using names that cannot be rebuilt (objects, callables of the context) are skipped.
+    -> None or a description of the first disagreement."""
+    for c in case['calls']:
+        sig = c['sig']
+        if c['op'] != 'eval' or sig['kind'] not in kinds or sig['interp'] != 0 or c.get('result') is None:
+            continue
+        code = sig['code']
+        env = {}
+        skip = False
+        for k, v in c['ctx']:
+            if v[0] == 's' and (v[1].startswith('object:') or v[1][:1] in '[{('):
+                skip = skip or (k in code)
+                continue
+            env[k] = _pyval(v)
+        if skip or 'tick' in code:
+            continue
+        t = sig['time']
+        env['time'] = t
+        cfg = set(sig['config'] or ())
+        env['active'] = lambda n, cfg=cfg: n in cfg
+        if sig['kind'] in ('guard', 'inv', 'post'):
+            def mk(base):
+                if base is None or isinstance(base, tuple):
+                    return None
+                return lambda d, base=base, t=t: t - d >= base
+            fa, fi = mk(sig['entry']), mk(sig['idle'])
+            if ('after(' in code and fa is None) or ('idle(' in code and fi is None):
+                continue
+            env['after'], env['idle'] = fa, fi
+        if sig['sent'] is not None:
+            env['sent'] = lambda n, l=sig['sent']: n in l
+        ev = sig['event']
+        if ev is not None:
+            env['event'] = _NS(dict([('name', ev[1])] + [(k, _pyval(v)) for k, v in ev[2] if '.' not in k]))
+            env['received'] = lambda n, ev=ev: n == ev[1]
+        else:
+            env['event'] = None
+            env['received'] = lambda n: False
+        if sig['old'] is not None:
+            env['__old__'] = _NS({k: _pyval(v) for k, v in sig['old'] if not (v[0] == 's' and (v[1].startswith('object:') or v[1][:1] in '[{('))})
+        env['ok'] = lambda: True
+        try:
+            want = bool(eval(code, {'__builtins__': {'len': len}}, env))
+        except Exception:  # noqa
+            continue      # the harness cannot evaluate it (missing name, raising condition): no verdict
+        if want != bool(c['result']):
+            return 'the %s %r of %s evaluated to %r although it is %r of what it could observe' % (
+                sig['kind'], code, sig['owner'], c['result'], want)
     return None
 
 
@@ -336,7 +408,54 @@ def interest_c10(mask, fdk, mcode, case):
     return None
 
 
+def time_bases_ok(case):
+    """The bases of after()/idle() that guards and end-of-step invariants were given (probed through the closures the evaluator
+    exposes) are the entry / idle times of the owning state: guards are evaluated before anything changes (pre-state values),
+    the invariants at the end of the macro step see the post-state values.  Transition postconditions and invariants of a
+    macro step with a single transition and no earlier re-entry of the source see the pre-state idle time."""
+    if case['op'][0] != 'exec':
+        return None
+    pre_e, pre_i = dict(case['pre']['entry']), dict(case['pre']['idle'])
+    post_e, post_i = dict(case['post']['entry']), dict(case['post']['idle'])
+    steps = case['out'][1][1] if case['out'][0] == 'macro' and case['out'][1] is not None else None
+    trans = case['scenario'].sc._transitions
+    n_calls = len(case['calls'])
+    # index of the first call that is not a guard: the end-of-step invariants are the trailing 'inv' calls on states
+    for idx, c in enumerate(case['calls']):
+        sig = c['sig']
+        if sig['interp'] != 0 or c['op'] != 'eval' or isinstance(sig['entry'], tuple) or isinstance(sig['idle'], tuple):
+            continue
+        own = sig['owner']
+        name = own[1] if own[0] == 'S' else (trans[own[1]].source if 0 <= own[1] < len(trans) else None)
+        if name is None:
+            continue
+        if sig['kind'] == 'guard':
+            want = (pre_e.get(name), pre_i.get(name))
+        elif sig['kind'] == 'inv' and own[0] == 'S' and steps is not None and case['out'][0] == 'macro' \
+                and all(cc['sig']['kind'] == 'inv' and cc['sig']['owner'][0] == 'S' for cc in case['calls'][idx:]):
+            want = (post_e.get(name), post_i.get(name))
+        elif sig['kind'] in ('post', 'inv') and own[0] == 'T' and steps is not None \
+                and sum(1 for st in steps if st['trans'] is not None) == 1 and steps[0]['trans'] is not None:
+            want = (pre_e.get(name), pre_i.get(name))
+        else:
+            continue
+        got = (sig['entry'], sig['idle'])
+        if None in want or None in got:
+            continue
+        if got != want:
+            return 'after()/idle() of the %s of %s count from %r / %r instead of from the entry time %r / idle time %r of %r' % (
+                sig['kind'], own, got[0], got[1], want[0], want[1], name)
+    return None
+
+
 def interest_c13(mask, fdk, mcode, case):
+    disc = [f for f in case.get('discontinuity', []) if f in ('time', 'entry', 'idle')]
+    if disc:
+        return ('%s of the interpreter changed although no execute_once of it ran since the previous operation '
+                '(C13_frozen: time changes only at execute_once; C13_entry_idle: latest macro step that entered / fired)' % disc)
+    bad = time_bases_ok(case)
+    if bad:
+        return bad + ' (C13_after_idle)'
     if case['op'][0] == 'exec' and any(t != case['op'][1] for t in case.get('listener_times', [])):
         return 'while a listener handles a meta-event of the step, the interpreter\'s time is not the value sampled for the step (C13_frozen)'
     if mask & B.PB_TIMES:
